@@ -85,7 +85,7 @@ def gen_cases(seed, chunk, n, tier):
         dtype = rng.choice(["float64", "complex128", "float32", "complex64"])
         keep = rng.choice([0.4, 0.7, 1.0])
         pending = rng.random() < 0.5
-        kind = rng.choice(["transpose"] * 3 + ["tensordot"] * 5 + ["trace", "matmul", "einsum", "revsign"])
+        kind = rng.choice(["transpose"] * 3 + ["tensordot"] * 5 + ["trace", "matmul", "einsum", "revsign", "scalar_outer"])
         meta = dict(sym=sym, static=static, kind=kind, pending=pending)
         orc = None
         if kind == "transpose":
@@ -178,6 +178,45 @@ def gen_cases(seed, chunk, n, tier):
             else:
                 orc = f"tensordot raised {res[0].get('msg')}"
             nontrivial = len(xa) >= 1 and (_odd_legs(a) >= 2 or _odd_legs(b) >= 2)
+        elif kind == "scalar_outer":
+            # outer product (no contracted axes) with a RANK-0 fermionic array that carries a pending sign (from
+            # phase_global, or as the lazily signed result of contracting two odd arrays completely)
+            import symmray as sr
+            if rng.random() < 0.5:
+                s0 = gen.rand_array(rng, sym, ndim=0, fermi=True, static=static, dtype=dtype, keep=1.0)
+                s0 = s0.phase_global()
+            else:
+                u, w, xu, xw = gen.rand_contractible(rng, sym, fermi=True, static=static, dtype=dtype, keep=1.0,
+                                                     parities=(1, 1), max_ndim=2, ncon=None)
+                nd = rng.randint(1, 2)
+                ixs = [gen.rand_index(rng, sym, 2, 2) for _ in range(nd)]
+                u = gen.rand_array(rng, sym, indices=ixs, fermi=True, static=static, dtype=dtype, keep=1.0, parity=1,
+                                   label=rng.randint(1, 9))
+                w = gen.rand_array(rng, sym, indices=[ix.conj() for ix in ixs], fermi=True, static=static, dtype=dtype,
+                                   keep=1.0, parity=1, label=rng.randint(10, 19))
+                if rng.random() < 0.5:
+                    u, w = w, u
+                s0 = sr.tensordot(u, w, nd, preserve_array=True)
+            t = gen.rand_array(rng, sym, ndim=rng.randint(1, 3), fermi=True, static=static, dtype=dtype, keep=keep,
+                               pending=pending, label=rng.randint(20, 40))
+            a, b = (s0, t) if rng.random() < 0.5 else (t, s0)
+            mode = rng.choice(["auto", "fused", "blockwise"])
+            axes = rng.choice([0, [[], []]])
+            steps = [{"out": ["c"], "op": "tensordot", "in": ["a", "b"], "params": {"axes": axes, "mode": mode}}]
+            env = {"a": a, "b": b}
+            res, env2 = impl.run_prog(env, steps)
+            meta.update(mode=mode, ncon=0, scalar_pending=bool(s0.phases), pa=int(a.parity), pb=int(b.parity))
+            if "ok" in res[0]:
+                c = env2["c"]
+                exp, labels = oracle.graded_tensordot(a, b, [], [])
+                orc = oracle.embed_compare(c, exp, list(a.indices) + list(b.indices))
+                if orc is None and _labels(c) != labels:
+                    orc = f"labels {_labels(c)} != expected {labels}"
+                if orc is not None:
+                    orc = "outer product with a rank-0 fermionic array: " + orc
+            else:
+                orc = f"tensordot raised {res[0].get('msg')}"
+            nontrivial = bool(s0.phases)
         elif kind == "trace":
             ix = gen.rand_index(rng, sym)
             if rng.random() < 0.5:
